@@ -242,7 +242,7 @@ def chimeric(rng, R, noisy=True):
 
 def gen_scenario(rng: random.Random, kind=None) -> Scenario:
     kind = kind or rng.choice(["plain", "plain", "noisy", "chimeric", "indel", "degenerate", "params", "multi_ref"])
-    nref = 1 if kind not in ("multi_ref", "degenerate", "translocation", "twin_refs") else rng.randrange(1, 4)
+    nref = 1 if kind not in ("multi_ref", "degenerate", "translocation", "twin_refs", "rest_outscores") else rng.randrange(1, 4)
     if kind == "translocation":
         nref = rng.randrange(2, 4)
     refs = []
@@ -277,6 +277,18 @@ def gen_scenario(rng: random.Random, kind=None) -> Scenario:
             Q = Q1 + [base + q for q in Q2]
         elif kind == "chimeric" and r < 0.6:
             Q = chimeric(rng, R)
+        elif kind == "rest_outscores" and r < 0.7:
+            # a long, loosely matching head (every label 500-650 bp off: it wins the seeding, but each pair scores low)
+            # followed by a shorter exact tail from elsewhere: with -p 1 the first pass can only find the head, and the
+            # second-pass record of the tail has the HIGHER confidence
+            Rb = rng.choice(refs)[2]
+            ka, kb = rng.randrange(24, 34), rng.randrange(13, 19)
+            ia, ib = rng.randrange(0, len(R) - ka), rng.randrange(0, len(Rb) - kb)
+            A = [p - R[ia] for p in R[ia:ia + ka]]
+            A = sorted(max(0, p + rng.choice([-1, 1]) * rng.randrange(500, 651)) for p in A)
+            B = [p - Rb[ib] for p in Rb[ib:ib + kb]]
+            base = A[-1] + rng.randrange(3000, 15000)
+            Q = ([p for p in A] + [base + p for p in B]) if rng.random() < 0.6 else (B + [B[-1] + rng.randrange(3000, 15000) + p for p in A])
         elif kind == "indel" or (kind == "noisy"):
             Q, _, _ = gens.make_query(rng, R, True)
         elif kind == "degenerate" and r < 0.5:
@@ -316,10 +328,56 @@ def gen_scenario(rng: random.Random, kind=None) -> Scenario:
             extra["-diff"] = rng.choice([0, 5000, 50000, 100000])
         if rng.random() < 0.3:
             extra["-ss"] = 1
+    elif kind == "rest_outscores":
+        extra["-p"] = 1
+        extra["-diff"] = rng.choice([0, 5000, 100000])
     elif rng.random() < 0.3:
         extra["-p"] = rng.choice([1, 2, 5])
     shuffle_seed = rng.randrange(1 << 30) if rng.random() < 0.5 else None
     return Scenario(refs, queries, P, extra, shuffle_seed, kind)
+
+
+
+def gen_decoy(rng: random.Random):
+    """C10, 'references the query does not align to listed in a different order': a sparse target reference (one label
+    every 3-17 kb), a dense decoy reference nothing aligns to (one label every 2-5 kb), chimeric molecules (a thinned,
+    jittered copy of a target window followed by a dense tail of junk: their true primary peak is only moderate, the
+    decoy's peak may be higher while its score is lower) and clean bystanders.  Returns the scenario with the decoy
+    BEFORE the target (id 1) and the one with the decoy AFTER it (id 90)."""
+    def labels(length, lo, hi):
+        out, p = [], rng.randrange(1000, 5000)
+        while p < length - 1000:
+            out.append(p)
+            p += rng.randrange(lo, hi + 1)
+        return out
+    tlen = rng.choice([1_200_000, 2_000_000])
+    T = labels(tlen, 3000, 17000)
+    D = labels(rng.choice([900_000, 1_500_000]), 2000, 5000)
+    queries = []
+    ids = rng.sample(range(2, 60), rng.randrange(3, 6))
+    for k, qi in enumerate(ids):
+        start = rng.randrange(50_000, tlen - 400_000)
+        if k % 2 == 0:
+            true_len, junk = rng.choice([150_000, 200_000, 250_000]), rng.choice([80_000, 120_000, 160_000])
+            jit = rng.choice([100, 200, 300])
+            Q = [p - start + rng.randrange(-jit, jit + 1) for p in T if start <= p < start + true_len and rng.random() < rng.choice([0.6, 0.7, 0.8])]
+            p = true_len + 3000
+            while p < true_len + junk:
+                Q.append(p)
+                p += rng.randrange(2500, 4501)
+            Q = sorted(set(max(0, x) for x in Q))
+        else:
+            Q = [p - start + 500 for p in T if start <= p < start + 250_000]
+        if len(Q) < 4:
+            continue
+        if rng.random() < 0.4:
+            Q = gens.mirror(Q)
+        queries.append((qi, Q[-1] + 1000, Q))
+    extra = {"-p": rng.choice([1, 1, 1, 2, 3])}
+    tid = 7
+    before = Scenario([(1, D[-1] + 1000, D), (tid, tlen, T)], sorted(queries), dict(gens.DEFAULT_P), extra, None, "decoy-before")
+    after = Scenario([(tid, tlen, T), (90, D[-1] + 1000, D)], sorted(queries), dict(gens.DEFAULT_P), extra, None, "decoy-after")
+    return before, after
 
 
 class Workdir:
